@@ -771,7 +771,9 @@ fn build_write_script(rng: &mut Rng, w: u64) -> Vec<WStep> {
             // the file passes 128 sectors during the writes after the marker: a second FAT
             // sector is appended inside a write-back (the zero-filled bulk before the marker
             // is not swept)
-            let mut pre = vec![WStep::OpenNew { slot: 0, path: "/wide".into() }, WStep::SetLen { slot: 0, n: 56_000 }, WStep::Seek { slot: 0, to: 56_000 }, WStep::Marker];
+            // (the handle is closed before the marker and reopened after it, so that the part
+            // before the marker can be run once and reused)
+            let mut pre = vec![WStep::OpenNew { slot: 0, path: "/wide".into() }, WStep::SetLen { slot: 0, n: 56_000 }, WStep::CloseHandle { slot: 0 }, WStep::Marker, WStep::OpenExisting { slot: 0, path: "/wide".into() }, WStep::Seek { slot: 0, to: 56_000 }];
             for _ in 0..12 {
                 pre.push(WStep::Write { slot: 0, len: 1024 }); // a plain write takes at most one buffer
             }
